@@ -3,6 +3,7 @@ import NetVerif.Model.QuicMonitor
 import NetVerif.Gen.C20
 import NetVerif.Proofs.C24
 import NetVerif.Proofs.Lemmas.QuicMonitor
+import NetVerif.Proofs.Lemmas.QuicRecv
 /-!
 C19 — QUIC streams deliver bytes reliably and in order over a faulty network.
 
@@ -129,6 +130,70 @@ theorem read_fast_path_bytes (c : Conn) (s : Stream) (n : Nat) (hw : s.writeOnly
     (QuicStream.read c s n).2.2 = .data ((s.inbuf.drop s.inbufoff).take (min n (s.inbuf.length - s.inbufoff))) false := by
   unfold QuicStream.read
   simp [hw, hf]
+
+/-! ### byte-level refinement of the receive side through the chunked pipe -/
+section Bytes
+open NetVerif.Proofs.Lemmas.QuicRecv
+
+/-- **What the peer's reads are made of.**  Start from a fresh stream and deliver ANY sequence of STREAM
+frames carrying slices of one sender byte sequence `w` (any order, duplication, overlap, any alignment
+to the 4096-byte pipe chunks).  Then for every `k` such that `[0,k)` has been received, the slow path's
+`pipe.copy(0, k)` returns exactly `w[0..k)`: right length, right bytes, in order — and no pipe primitive
+has panicked.  (`Read` hands out `pipe.copy(in.start, min(len(b), inset[0].end - in.start))`, see
+`copy_bytes` for an arbitrary read position and `read_fast` / `peek_bytes` for the lock-free buffer.) -/
+theorem received_prefix_reads_back (w : List Nat) (frames : List (Int × List Nat × Bool))
+    (hf : ∀ f ∈ frames, FrameOf w f.1 f.2.1) (c : Conn) (s : Stream)
+    (h1 : s.inp = Pipe.empty) (h2 : s.inset = []) (h3 : s.inbuf = []) (h4 : s.inbufoff = 0)
+    (ho : isOpen s) (hp : s.panicked = false) (k : Nat)
+    (hk : ∀ x, 0 ≤ x → x < (k : Int) → Mem (frames.foldl feed (c, s)).2.inset x) :
+    (frames.foldl feed (c, s)).2.panicked = false ∧
+    ∃ bytes, Pipe.copy (frames.foldl feed (c, s)).2.inp 0 k = some bytes ∧ bytes.length = k ∧
+      ∀ i : Nat, i < k → bytes[i]? = w[i]? := by
+  obtain ⟨spec', hri, _, hst, hpan, _, _⟩ := frames_RI w frames hf c s NetVerif.Proofs.C30.Spec.empty (fresh_RI w s h1 h2 h3 h4) ho
+  have hs0 : (frames.foldl feed (c, s)).2.inp.start = 0 := by rw [hst, h1]; rfl
+  refine ⟨by rw [hpan, hp], ?_⟩
+  obtain ⟨bytes, e1, e2, e3⟩ := copy_bytes w _ spec' hri k (by rw [hs0]; intro x a b; exact hk x a (by omega))
+  rw [hs0] at e1
+  refine ⟨bytes, e1, e2, fun i hi => ?_⟩
+  have := e3 i hi
+  rw [hs0] at this
+  rw [this]; unfold wAt; simp
+
+/-- Full statements over histories that interleave reads (not closed in this round; the per-operation
+ingredients are `handleData_RI`, `read_fast`, `copy_bytes`, `discard_RI`, `peek_bytes`,
+`closeRead_clears_inbuf`, `read_after_reset`; the exact model is compared byte for byte with the real
+`Read` after every operation in the sm tie). -/
+def ReadsArePrefixStatement : Prop :=
+  ∀ (w : List Nat) (c : Conn) (s : Stream) (spec : NetVerif.Proofs.C30.Spec) (n : Nat),
+    RI w s spec → s.writeOnly = false → isOpen s →
+    let r := QuicStream.read c s n
+    (∃ spec', RI w r.2.1 spec') ∧ pos r.2.1 = pos s + (bytesOf r.2.2).length ∧
+      (∀ i : Nat, i < (bytesOf r.2.2).length → (bytesOf r.2.2)[i]? = wAt w (pos s + i)) ∧ r.2.2 ≠ .panic
+
+/-- the fast-path half of `ReadsArePrefixStatement` -/
+theorem reads_are_prefix_partial (w : List Nat) (c : Conn) (s : Stream) (spec : NetVerif.Proofs.C30.Spec) (n : Nat)
+    (h : RI w s spec) (hw : s.writeOnly = false) (hf : s.inbuf.length > s.inbufoff) :
+    let r := QuicStream.read c s n
+    (∃ spec', RI w r.2.1 spec') ∧ pos r.2.1 = pos s + (bytesOf r.2.2).length ∧
+      (∀ i : Nat, i < (bytesOf r.2.2).length → (bytesOf r.2.2)[i]? = wAt w (pos s + i)) ∧ r.2.2 ≠ .panic := by
+  have := read_fast w c s spec n h hw hf
+  exact ⟨⟨spec, this.1⟩, this.2.1, this.2.2.2.1, this.2.2.2.2⟩
+
+/-- non-vacuity: out-of-order, overlapping frames of `w = [10,11,12,13,14,15]` -/
+example : FrameOf [10, 11, 12, 13, 14, 15] 3 [13, 14, 15] ∧ FrameOf [10, 11, 12, 13, 14, 15] 0 [10, 11, 12, 13] ∧
+    FrameOf [10, 11, 12, 13, 14, 15] 2 [12] := by
+  refine ⟨⟨by decide, by decide, ?_⟩, ⟨by decide, by decide, ?_⟩, ⟨by decide, by decide, ?_⟩⟩
+  · intro i hi
+    have : i = 0 ∨ i = 1 ∨ i = 2 := by simp at hi; omega
+    rcases this with rfl | rfl | rfl <;> decide
+  · intro i hi
+    have : i = 0 ∨ i = 1 ∨ i = 2 ∨ i = 3 := by simp at hi; omega
+    rcases this with rfl | rfl | rfl | rfl <;> decide
+  · intro i hi
+    have : i = 0 := by simp at hi; omega
+    subst this; decide
+
+end Bytes
 
 /-! ### send side bookkeeping -/
 
